@@ -103,6 +103,27 @@ def main(ctx, replay=None):
             nonfinite = bad.startswith("non-finite")
             ctx.violation(f"{method} order {order} nv {nv} (power-law table): {bad}", case, {**sig, "clause": "power_law", "nonfinite": nonfinite})
             continue
+        # ---- (1b) the same end points and count, another interior spacing (volumes are not equally spaced in general) -------------
+        if nv >= 3:
+            step = abs(volumes[1] - volumes[0])
+            vol2 = volumes.copy()
+            vol2[1:-1] += rng.uniform(-0.35, 0.35, nv - 2) * step
+            freqs2 = a[None] * (vol2[:, None, None] / vmax) ** (-g[None])
+            if gamma_zero:
+                freqs2[:, 0, :3] = 0.0
+            case1b = {**case, "table": "power_law_unequal_spacing"}
+            ctx.count(case1b)
+            try:
+                w2, gam2, kap2 = call(method, order, vol2, freqs2, v_array)
+            except Exception as ex:
+                ctx.violation(f"interpolate_modes(method={method}, order={order}) on {nv} unequally spaced volumes raised {ex!r}", case1b,
+                              {**sig, "clause": "raises", "exc": type(ex).__name__})
+                continue
+            if not (numpy.allclose(w2[:, mask], wexp[:, mask], rtol=TOL[method][0]) and numpy.allclose(gam2[:, mask], numpy.broadcast_to(g[None], gam2.shape)[:, mask], rtol=0, atol=TOL[method][1])
+                    and numpy.allclose(kap2[:, mask], 0.0, atol=TOL[method][2])):
+                ctx.violation(f"{method} order {order} nv {nv}: power-law data on unequally spaced volumes (same end points as the call before) are not reproduced "
+                              f"(max frequency error {float(numpy.nanmax(numpy.abs(w2[:, mask] / wexp[:, mask] - 1))):.3g})", case1b, {**sig, "clause": "power_law", "nonfinite": False})
+                continue
         # ---- (2) polynomial ln(omega) up to the exactness degree -----------------------------------------
         for poly in tab["polys"]:
             if poly["deg"] < 2 or poly["deg"] > c["exact"]:
